@@ -140,7 +140,9 @@ pub trait PriceDiscovery:
         let current_price = self.calculate_price();
         let min_price = self.min_launched_token_price().get();
         require!(
-            current_price == 0 || current_price >= min_price || payment_token == accepted_token_id,
+            self.accepted_token_balance().get() == 0
+                || current_price >= min_price
+                || payment_token == accepted_token_id,
             BELOW_MIN_PRICE_ERR_MSG
         );
 
